@@ -903,6 +903,118 @@ def r41_iter_mut_for_each(text, base_line=0):
         text = text[:m.start()] + new + text[k + tail.end():]
 
 
+def r36_extend(text, base_line=0):
+    """R36: `X.extend(Y);` (Y a reference to a Vec of `Copy` elements) -> `for __e in 0..Y.len() { X.push(Y[__e]); }`"""
+    log = []
+    pat = re.compile(r"(\w+)\.extend\((\w+)\);")
+    for m in pat.finditer(text):
+        log.append("R36 line %d: `%s` -> push loop" % (base_line + text.count("\n", 0, m.start()), m.group(0)))
+    return pat.sub(lambda m: "for __e in 0..%s.len() { %s.push(%s[__e]); }" % (m.group(2), m.group(1), m.group(2)), text), log
+
+
+def r37_for_in_ref(text, base_line=0):
+    """R37: `for X in Y {` (Y an identifier bound to a reference to a Vec) -> `for __jN in 0..Y.len() { let X = &Y[__jN];`"""
+    log = []
+    pat = re.compile(r"for\s+(\w+)\s+in\s+(\w+)\s*\{")
+    n = 0
+    while True:
+        m = pat.search(text)
+        if not m:
+            return text, log
+        n += 1
+        x, y = m.groups()
+        new = "for __j%d in 0..%s.len() { let %s = &%s[__j%d];" % (n, y, x, y, n)
+        log.append("R37 line %d: `%s` -> `%s`" % (base_line + text.count("\n", 0, m.start()), m.group(0), new))
+        text = text[:m.start()] + new + text[m.end():]
+
+
+def r38_flat_map3(text, base_line=0):
+    """R38: `D.iter().flat_map(|A| A.iter().flat_map(|B| B.iter().cloned())).collect()` -> block with three nested index loops pushing `B[k]`"""
+    log = []
+    pat = re.compile(r"(\w+)\s*\.iter\(\)\s*\.flat_map\(\|(\w+)\|\s*\2\.iter\(\)\.flat_map\(\|(\w+)\|\s*\3\.iter\(\)\.cloned\(\)\)\)\s*\.collect\(\)")
+    m = pat.search(text)
+    if not m:
+        return text, log
+    d, a, b = m.groups()
+    new = ("{ let mut __f: Vec<f32> = Vec::new(); for __a in 0..%s.len() { let %s = &%s[__a]; for __b in 0..%s.len() { let %s = &%s[__b]; for __c in 0..%s.len() { __f.push(%s[__c]); } } } __f }"
+           % (d, a, d, a, b, a, b, b)) + "\n" * m.group(0).count("\n")
+    log.append("R38 line %d: `%s.iter().flat_map(|%s| %s.iter().flat_map(|%s| %s.iter().cloned())).collect()` -> three nested index loops pushing each element in order"
+               % (base_line + text.count("\n", 0, m.start()), d, a, a, b, b))
+    return text[:m.start()] + new + text[m.end():], log
+
+
+def r39_unflatten(text, base_line=0):
+    """R39: `let mut iter = SRC.into_iter(); ... (0..A).map(|_| { (0..B).map(|_| { (0..C).map(|_| [*]iter.next().unwrap()).collect() }).collect() }).collect()`
+    -> `let __src = SRC; let mut __it: usize = 0; ... { three nested loops pushing __src[__it], __it += 1 }` (an exhausted iterator and an index out of
+    range both panic)"""
+    log = []
+    pat_it = re.compile(r"let\s+mut\s+iter\s*=\s*([\w\.\(\)]+?)\.into_iter\(\);")
+    pat_nest = re.compile(r"\(0\.\.(\*?\w+)\)\s*\.map\(\|_\|\s*\{?\s*\(0\.\.(\*?\w+)\)\s*\.map\(\|_\|\s*\{?\s*\(0\.\.(\*?\w+)\)\.map\(\|_\|\s*\*?iter\.next\(\)\.unwrap\(\)\)\.collect\(\)\s*\}?\s*\)\s*\.collect\(\)\s*\}?\s*\)\s*\.collect\(\)")
+    while True:
+        mi = pat_it.search(text)
+        if not mi:
+            return text, log
+        mn = pat_nest.search(text, mi.end())
+        if not mn:
+            raise LostAnchor("R39: no nested range map follows `let mut iter = ...into_iter();`")
+        a, b, c = mn.groups()
+        nest = ("{ let mut __o3: Vec<Vec<Vec<f32>>> = Vec::new(); for __p in 0..%s { let mut __o2: Vec<Vec<f32>> = Vec::new(); for __q in 0..%s { let mut __o1: Vec<f32> = Vec::new(); for __r in 0..%s "
+                "{ __o1.push(__src[__it]); __it = __it + 1; } __o2.push(__o1); } __o3.push(__o2); } __o3 }" % (a, b, c)) + "\n" * mn.group(0).count("\n")
+        head = "let __src = %s; let mut __it: usize = 0;" % mi.group(1)
+        log.append("R39 line %d: stateful `iter.next().unwrap()` inside three nested `(0..n).map(|_| ..).collect()` -> nested loops reading `__src[__it]` with a running index"
+                   % (base_line + text.count("\n", 0, mi.start())))
+        text = text[:mi.start()] + head + text[mi.end():mn.start()] + nest + text[mn.end():]
+
+
+def r42_assert_eq(text, base_line=0):
+    """R42: `assert_eq!(A, B, "msg");` -> `if !(A == B) { panic!("msg") }` (then R13)"""
+    log = []
+    pat = re.compile(r"assert_eq!\(")
+    while True:
+        m = pat.search(text)
+        if not m:
+            return text, log
+        close = _balanced(text, m.end() - 1)
+        inner = text[m.end():close - 1]
+        # split at top-level commas
+        parts, depth, cur = [], 0, ""
+        for ch in inner:
+            if ch in "([{":
+                depth += 1
+            elif ch in ")]}":
+                depth -= 1
+            if ch == "," and depth == 0:
+                parts.append(cur)
+                cur = ""
+            else:
+                cur += ch
+        if cur.strip():
+            parts.append(cur)
+        if len(parts) < 2:
+            raise LostAnchor("R42: assert_eq! with fewer than two arguments")
+        a, b = " ".join(parts[0].split()), " ".join(parts[1].split())
+        semi = re.match(r"\s*;", text[close:])
+        end = close + (semi.end() if semi else 0)
+        new = "if !(%s == %s) { panic!(\"assert_eq\") }" % (a, b) + "\n" * text[m.start():end].count("\n")
+        log.append("R42 line %d: `assert_eq!(%s, %s, ..)` -> `if !(%s == %s) { panic!(..) }`" % (base_line + text.count("\n", 0, m.start()), a, b, a, b))
+        text = text[:m.start()] + new + text[end:]
+
+
+def r43_mut_self(text, base_line=0):
+    """R43: a `mut self` receiver (unsupported by this Verus) -> the wrapper takes `self` and binds `let mut this = self;`; every `self` in the body -> `this`"""
+    log = ["R43: receiver `mut self` -> `self` + `let mut this = self;`, `self` renamed to `this` in the body (%d occurrences)" % len(re.findall(r"\bself\b", text))]
+    return re.sub(r"\bself\b", "this", text), log
+
+
+def r44_name_tail_call(text, base_line=0):
+    """R44: a tail expression `RECV.flatten()` on a line of its own -> `{ let __r4 = RECV.flatten(); __r4 }` (names the value so that ghost code can mention it)"""
+    log = []
+    pat = re.compile(r"^(\s*)(\w+)\.flatten\(\)\s*$", re.M)
+    for m in pat.finditer(text):
+        log.append("R44 line %d: `%s.flatten()` -> `{ let __r4 = %s.flatten(); __r4 }`" % (base_line + text.count("\n", 0, m.start()), m.group(2), m.group(2)))
+    return pat.sub(lambda m: "%s{ let __r4 = %s.flatten(); __r4 }" % (m.group(1), m.group(2)), text), log
+
+
 def r21_to_owned(text, base_line=0):
     """R21: `.to_owned()` -> `.clone()` (identical for a `Clone` type; vstd specifies `Clone`)"""
     log = []
@@ -920,9 +1032,9 @@ REWRITES = {
     "R1": r1_compound_assign, "R2": r2_unary_minus, "R3": r3_scale_call, "R6": r6_for_with_continue,
     "R7": r7_isqrt, "R8": r8_step_by, "R9": r9_consts, "R10": r10_tail_continue,
     "R12": r12_enumerate, "R15": r15_iter, "R16": r16_map_index, "R17": r17_for_in_ref_vec, "R18": r18_assert_eq_shape,
-    "R19": r19_last_unwrap, "R20": r20_range_enumerate, "R21": r21_to_owned, "R22": r22_map_collect, "R23": r23_slice_iter, "R24": r24_name_wildcard_loop, "R25": r25_par_map_collect, "R26": r26_zip_iter_mut, "R27": r27_sum_f32, "R28": r28_as_f32, "R29": r29_consuming_for, "R30": r30_rev_take_collect, "R31": r31_zip_map_sum, "R32": r32_chunked_zip_flat_map, "R33": r33_unzip, "R34": r34_chunked_flat_map, "R35": r35_chunk_const, "R40": r40_for_mut_ref, "R41": r41_iter_mut_for_each, "R13": r13_panic_allowed, "R14": r14_panic_forbidden,
+    "R19": r19_last_unwrap, "R20": r20_range_enumerate, "R21": r21_to_owned, "R22": r22_map_collect, "R23": r23_slice_iter, "R24": r24_name_wildcard_loop, "R25": r25_par_map_collect, "R26": r26_zip_iter_mut, "R27": r27_sum_f32, "R28": r28_as_f32, "R29": r29_consuming_for, "R30": r30_rev_take_collect, "R31": r31_zip_map_sum, "R32": r32_chunked_zip_flat_map, "R33": r33_unzip, "R34": r34_chunked_flat_map, "R35": r35_chunk_const, "R36": r36_extend, "R37": r37_for_in_ref, "R38": r38_flat_map3, "R39": r39_unflatten, "R42": r42_assert_eq, "R43": r43_mut_self, "R44": r44_name_tail_call, "R40": r40_for_mut_ref, "R41": r41_iter_mut_for_each, "R13": r13_panic_allowed, "R14": r14_panic_forbidden,
 }
-ORDER = ["R18", "R13", "R14", "R16", "R40", "R41", "R31", "R32", "R34", "R35", "R33", "R25", "R26", "R29", "R30", "R27", "R28", "R20", "R22", "R23", "R24", "R12", "R15", "R17", "R19", "R21", "R10", "R8", "R6", "R9", "R7", "R3", "R1", "R2"]
+ORDER = ["R42", "R43", "R44", "R18", "R13", "R14", "R16", "R40", "R41", "R38", "R39", "R36", "R37", "R31", "R32", "R34", "R35", "R33", "R25", "R26", "R29", "R30", "R27", "R28", "R20", "R22", "R23", "R24", "R12", "R15", "R17", "R19", "R21", "R10", "R8", "R6", "R9", "R7", "R3", "R1", "R2"]
 
 
 def apply_rewrites(text, names, base_line):
@@ -1118,12 +1230,23 @@ def generate(template_path, repo, canary=False, contracts_dir=None, exclude=None
     i = 0
     unit = None
 
-    def subst(s):
+    def subst(s, env=None):
+        """`${X}` expands the //@def X; `${X:A=u,B=v}` expands it with `${A}` / `${B}` inside replaced by u / v"""
+        env = env or {}
+
         def rep(m):
-            if m.group(1) not in defs:
-                raise LostAnchor("template %s: undefined macro %s" % (template_path, m.group(1)))
-            return subst(defs[m.group(1)])
-        return re.sub(r"\$\{(\w+)\}", rep, s)
+            name, args = m.group(1), m.group(2)
+            if name in env and args is None:
+                return env[name]
+            if name not in defs:
+                raise LostAnchor("template %s: undefined macro %s" % (template_path, name))
+            e2 = dict(env)
+            if args:
+                for kv in args.split(","):
+                    k, v = kv.split("=", 1)
+                    e2[k.strip()] = subst(v.strip(), env)
+            return subst(defs[name], e2)
+        return re.sub(r"\$\{(\w+)(?::([^}]*))?\}", rep, s)
 
     while i < len(tl):
         ln = tl[i]
@@ -1168,7 +1291,7 @@ def generate(template_path, repo, canary=False, contracts_dir=None, exclude=None
             continue
         if s.startswith("//@body "):
             spec = parse_kv(s[len("//@body "):])
-            loop_inv, inserts, skips, outlines, types, assumed = {}, [], [], [], [], []
+            loop_inv, inserts, skips, outlines, types, assumed, inlines = {}, [], [], [], [], [], []
             j = i + 1
             while tl[j].strip() != "//@endbody":
                 d = tl[j].strip()
@@ -1201,6 +1324,16 @@ def generate(template_path, repo, canary=False, contracts_dir=None, exclude=None
                 if m:
                     skips.append((m.group(1), m.group(2), int(m.group(3) or 1)))
                     j += 1
+                    continue
+                m = re.match(r"//@(inline-after)\s+/(.+)/\s*(?:#(\d+))?$", d)
+                if m:
+                    k = j + 1
+                    buf = []
+                    while tl[k].strip() != "//@end":
+                        buf.append(tl[k].strip())
+                        k += 1
+                    inlines.append((re.compile(m.group(2)), int(m.group(3) or 1), subst(" ".join(buf))))
+                    j = k + 1
                     continue
                 m = re.match(r"//@(before|after)\s+/(.+)/\s*(?:#(\d+))?$", d)
                 if m:
@@ -1238,7 +1371,10 @@ def generate(template_path, repo, canary=False, contracts_dir=None, exclude=None
                         depth -= t[k] in ")]}"
                         k += 1
                     return norm_ws(t[m.end():k - 1]).rstrip(",")
-                if mine is None or plist(mine) != plist(real_sig):
+                real_pl = plist(real_sig)
+                if "R43" in spec.get("rewrites", "") and real_pl is not None:
+                    real_pl = re.sub(r"^mut\s*self", "self", real_pl)      # R43: `mut self` is taken as `self`, rebound in the body
+                if mine is None or plist(mine) != real_pl:
                     raise LostAnchor("unit %s: parameter list of %s::%s changed: `%s` vs wrapper `%s`" % (
                         unit, spec.get("impl", ""), spec["fn"], plist(real_sig), plist(mine) if mine else None))
             G.units[unit]["part"] = spec.get("part", "whole")
@@ -1300,15 +1436,22 @@ def generate(template_path, repo, canary=False, contracts_dir=None, exclude=None
             G.units[unit]["drops"] += log
             # `//@type VAR = TYPE`: a type annotation on the unique `let mut VAR = Vec::new();` (static information only; rustc rejects a wrong one)
             for (var, ty) in types:
-                pat_t = "let mut %s = Vec::new();" % var
+                pat_t = "let mut %s = Vec::" % var
                 if text.count(pat_t) != 1:
                     raise LostAnchor("unit %s: `%s` not found exactly once for //@type" % (unit, pat_t))
-                text = text.replace(pat_t, "let mut %s: %s = Vec::new();" % (var, ty))
+                text = text.replace(pat_t, "let mut %s: %s = Vec::" % (var, ty))
                 G.units[unit]["drops"].append("type annotation added: `let mut %s: %s`" % (var, ty))
             if spec.get("part", "whole").startswith("closure:"):
                 G.units[unit]["drops"].append(
                     "R4: closure parameter pattern |%s| became wrapper parameters; the iterator adapter "
                     "chain around the closure is not part of the verified text" % spec.get("params", "?"))
+            # `//@inline-after /re/ [#k]`: ghost text spliced right after the k-th match INSIDE a line (for loops that a rewrite put on one line)
+            for rx, occ, ins in inlines:
+                hits = list(rx.finditer(text))
+                if len(hits) < occ:
+                    raise LostAnchor("unit %s: inline anchor /%s/ #%d not found" % (unit, rx.pattern, occ))
+                at = hits[occ - 1].end()
+                text = text[:at] + " " + ins + " " + text[at:]
             if loop_inv or "loops" in spec:
                 text = weave_loops(text, loop_inv, unit, int(spec["loops"]) if "loops" in spec else None)
             # line-anchored inserts
